@@ -841,6 +841,12 @@ func (ex *Ex) issue(i int, op *Op) {
 		if op.Pkt != nil {
 			rc = op.Pkt.ReasonCode
 		}
+		if t == refcodec.PUBCOMP && rc != 0 {
+			rc = 0x92 // the only error reason code a PUBCOMP may carry
+		}
+		if c.Ver < 5 {
+			rc = 0
+		}
 		ex.enqueue(c, &refcodec.Packet{Type: t, PacketID: pid, ReasonCode: rc}, i, op.Enc, 0)
 	case "drop":
 		if c := ex.connOf(op.Slot); c != nil && !c.isClosed() {
